@@ -24,7 +24,7 @@ FIELD_TYPES.update({
     ("BoolOperation", "fs"): ("dict", "future", "bool"),
     ("BoolOperation", "done"): "bool",
     ("BoolOperation", "lock"): "lock",
-    ("BoolOperation", "out"): INST("Future"),
+    ("BoolOperation", "out"): INST("OutputFuture"),
 })
 
 
@@ -68,6 +68,10 @@ def _cancel_loop_spec():
         x = engine.to_val(st, ctx["x"])
         calls = [e for e in events if (e.kind == "call" and e.meth == "cancel")]
         own = [e for e in events if e.kind == "resolve" and e.meth == "cancel"]        # out.cancel() on the library's own Future
+        own_recv = any(a.startswith("receiver is a OutputFuture") and b for a, b in st.decisions[-8:])
+        if own_recv and not own:
+            # cancel() of the library's own output returned early: it was already done
+            return [("exactly one cancel() request per element, on that element", st.done(Val.id(x)))]
         already = any(a == "stdlib cancel: already cancelled" or a == "stdlib cancel: running or finished" for a, b in st.decisions[-4:] if b)
         if calls:
             return [("exactly one cancel() request per element, on that element",
@@ -84,6 +88,11 @@ def _cfg():
     cfg.protected.update({"fs": "lock", "done": "lock"})
     cfg.stable |= {"out"}
     cfg.region_inv[("OrOperation", "lock")] = _bool_inv
+    # the output is a library future: its state changes only under its own _me_lock; dispatch of its callbacks
+    # is under the contract of _Future._me_invoke_callbacks (contracts/c_future.py)
+    cfg.protected.update({"$fstate": "_me_lock", "$fresult": "_me_lock", "$fexc": "_me_lock", "_me_done_callbacks": "_me_lock"})
+    from .base import RecordCall as _RC
+    cfg.contracts["more_executors._impl.common._Future._me_invoke_callbacks"] = _RC()
     cfg.region_inv[("AndOperation", "lock")] = _bool_inv
     cfg.loops[("more_executors._impl.futures.bool.BoolOperation.handle_done", 0)] = _cancel_loop_spec()
 
@@ -116,7 +125,7 @@ def _setup(cls_name):
         sid = Val.id(op.t)
         f = sym_val(engine, st, "future", "f")
         fid = Val.id(f.t)
-        out = engine.typed(st, st.get("out", sid), INST("Future"))
+        out = engine.typed(st, st.get("out", sid), INST("OutputFuture"))
         oid = Val.id(out.t)
         engine.touch_future(st, oid)
         st.assume(st.done(fid))
@@ -210,7 +219,7 @@ def _init_loop_spec():
         x = engine.to_val(st, ctx["x"])
         selfv = st.envs[fr.eid]["self"]
         sid = Val.id(selfv.t)
-        outv = engine.typed(st, st.get("out", sid), INST("Future"))
+        outv = engine.typed(st, st.get("out", sid), INST("OutputFuture"))
         oid = Val.id(outv.t)
         regs = [e for e in events if e.kind == "register-cb"]
         on_out = [e for e in regs if z3.is_true(z3.simplify(e.recv == oid))]
@@ -265,8 +274,8 @@ def _cfg_init():
         lid = getattr(cfg, "owned_list", None)
         if lid is not None:
             for a in ("$len", "$at"):
-                if a in old:
-                    st.assume(st.get(a, lid) == z3.Select(old[a], lid))
+                oa = old[a] if a in old else st.arr(a)
+                st.assume(st.get(a, lid) == z3.Select(oa, lid))
     cfg.after_interfere = rely
     return cfg
 
